@@ -33,12 +33,16 @@ RULE = ("values: random trees 1..7 nodes (uniform/chain/star/spider/binaryish/ca
         "distinct-prime dimensions. non-trivial = reference value != 0 on a tree with >= 2 nodes, or a legs case with "
         ">= 2 neighbours and a bra/operator order different from the ket order")
 PARTIAL = [
-    "value level (sum over bound indices = dense inner product; commutativity/associativity of finite sums, NumPy "
-    "tensordot semantics) is trusted and exercised by the dense oracle, not proved in Lean",
-    "the tree-level induction (contract_two_ttns / expectation_value compose the per-node steps along linearise()) "
-    "is checked by the oracle only; the theorems cover every per-node step for every neighbour order",
-    "orthogonality-centre shortcuts are sound only for canonical states (isometry contract of C03): oracle only",
-    "TTNO.as_matrix (completely_contract_tree + transpose/reshape) and apply_operator/absorb_into_open_legs: oracle only",
+    "value level: that the sum over the bound index pairs equals the dense inner product / <psi|O|psi> (finite-sum "
+    "algebra, NumPy tensordot semantics) is trusted and decided per input by the dense oracle, not proved in Lean",
+    "tree-level induction: that contract_two_ttns / expectation_value feed every per-node step with the blocks of its "
+    "children along linearise() is checked by the oracle; the theorems cover every per-node step (leaf, inner node, "
+    "root) for every neighbour order of ket, bra and operator",
+    "orthogonality-centre shortcuts (scalar_product, norm, single-site and one-site tensor product on the centre) are "
+    "sound only for canonical states (isometry contract, C03): oracle only",
+    "TTNO.as_matrix (completely_contract_tree + transpose/reshape), apply_operator/absorb_into_open_legs, conjugate(): "
+    "oracle only",
+    "contract_all_neighbour_blocks_to_hamiltonian is modelled and compared through the driver but has no theorem",
 ]
 ASSUMPTIONS = ["NumPy tensordot/transpose/reshape/vdot semantics", "dense contraction by tensordot over labelled legs",
                "float arithmetic on Gaussian integers below 2^53 is exact"]
@@ -685,7 +689,31 @@ def run_case(ctx, case):
         _case_legs(ctx, case)
 
 
+def _shrink_legs(case):
+    ket = (case["ket"][0], list(case["ket"][1]))
+    keep = {case.get("next"), case.get("nb"), case.get("ign")}
+    for n in ket[1]:
+        if n in keep:
+            continue
+        c = dict(case, ket=(ket[0], [x for x in ket[1] if x != n]))
+        for k, off in (("bra", case.get("off", 0)), ("op", case.get("offop", 0))):
+            if k in case:
+                other = (case[k][0], list(case[k][1]))
+                hit = [x for x in (n, n + off) if x in other[1]]
+                if not hit:
+                    c = None
+                    break
+                c[k] = (other[0], [x for x in other[1] if x != hit[0]])
+        if c is not None:
+            yield c
+    if case.get("distinct", True):
+        yield dict(case, distinct=False)
+
+
 def shrink(case):
+    if case.get("kind") == "legs":
+        yield from _shrink_legs(case)
+        return
     if case.get("kind") != "values":
         return
     par = case["par"]
